@@ -118,6 +118,14 @@ type OtherT struct{ A []int }
 	// D26: a helper generated for a recursive type gains an error result / a context argument after another helper was
 	// already emitted with a call of its old signature (fixed by 7c4d1f2: callers are rebuilt)
 	add("recursive-helper-gains-error-result-late", scratch.Tree{"p/p.go": "package p\n\nimport \"strconv\"\n\ntype Node struct {\n\tNext  *Node\n\tValue string\n}\ntype OutNode struct {\n\tNext  *OutNode\n\tValue int\n}\ntype Outer struct{ N Node }\ntype OuterT struct{ N OutNode }\n\nfunc Atoi(s string) (int, error) { return strconv.Atoi(s) }\n\n// goverter:converter\n// goverter:extend Atoi\ntype C interface {\n\tConvert(source Outer) (OuterT, error)\n}\n"}, map[string]string{})
+	// D32: `goverter:map . Field` in an update method with a POINTER source, next to a sibling that already made goverter
+	// generate the helper for the whole-source conversion: the pointer itself was passed where the struct is expected
+	add("update-pointer-source-whole-source-mapping", scratch.Tree{"p/p.go": "package p\n\ntype Det struct{ Name string }\ntype Wh struct{ Val Det }\ntype S struct {\n\tA   int\n\tVal Det\n}\ntype T struct {\n\tA     int\n\tWhole Wh\n}\n\nfunc Label(s S) string { return s.Val.Name }\n\ntype T2 struct {\n\tA     int\n\tWhole Wh\n\tL     string\n}\n\n// goverter:converter\n// goverter:update:ignoreZeroValueField:struct\ntype C interface {\n\t// goverter:map . Whole\n\tAlpha(source S) T\n\t// goverter:update target\n\t// goverter:map . Whole\n\tUpd(source *S, target *T)\n\t// goverter:update target\n\t// goverter:map . Whole\n\t// goverter:map . L | Label\n\tUpd2(source *S, target *T2)\n}\n"}, map[string]string{})
+	// D31: two output files in ONE package whose converters both need the helper for the same nested pair
+	add("same-helper-in-two-files-of-one-package", scratch.Tree{"p/p.go": "package p\n\ntype Nest struct{ A int }\ntype NestOut struct{ A int }\ntype In struct{ N Nest }\ntype Out struct{ N NestOut }\n\n// goverter:converter\n// goverter:output:format function\n// goverter:output:file ./a_gen.go\ntype A interface {\n\tConvA(source In) Out\n}\n\n// goverter:converter\n// goverter:output:format function\n// goverter:output:file ./b_gen.go\ntype B interface {\n\tConvB(source In) Out\n}\n"}, map[string]string{})
+	// D33: a converter method with a variadic parameter
+	add("variadic-converter-method", scratch.Tree{"p/p.go": "package p\n\ntype In struct{ A int }\ntype Out struct{ A int }\n\n// goverter:converter\ntype C interface {\n\tConvert(source ...In) []Out\n}\n"},
+		map[string]string{"p/generated/zz_assert.go": "//go:build !goverter\n\npackage generated\n\nimport up \"MODULE/p\"\n\nvar _ up.C = &CImpl{}\n"})
 	add("recursive-helper-gains-context-late", scratch.Tree{"p/p.go": "package p\n\ntype V struct{ N int }\ntype W struct{ N int }\ntype S struct {\n\tKid *S2\n\tVal V\n}\ntype S2 struct{ Back *S }\ntype T struct {\n\tKid *T2\n\tVal W\n}\ntype T2 struct{ Back *T }\ntype Outer struct{ X S }\ntype OuterT struct{ X T }\n\n// goverter:context tag\nfunc VToW(v V, tag string) W { return W{N: v.N} }\n\n// goverter:converter\n// goverter:extend VToW\ntype C interface {\n\t// goverter:context tag\n\tConvert(source Outer, tag string) OuterT\n}\n"}, map[string]string{})
 	return out
 }
@@ -129,7 +137,7 @@ var buildClasses = []struct {
 	{regexp.MustCompile(`duplicate case`), "D5-duplicate-case"},
 	{regexp.MustCompile(`refers? to unexported field|unexported field or method|\.age undefined`), "D6-unexported-source-field"},
 	{regexp.MustCompile(`cannot compare|struct containing .* cannot be compared|invalid operation: .* != .*\(struct`), "D7-uncomparable-zero-guard"},
-	{regexp.MustCompile(`redeclared in this block`), "D4-redeclared"},
+	{regexp.MustCompile(`Impl redeclared in this block`), "D4-redeclared"},
 	{regexp.MustCompile(`undefined: p\.lvDebugHidden`), "D24-unexported-enum-member"},
 	{regexp.MustCompile(`\b(c|i|j|k|l|m|n|o|p|q|r|s|t|u|v|w|x|y|z|source|target|context|key|value)\.\w+ (is not a type|undefined)`), "D8-import-alias-shadowed"},
 }
